@@ -3,18 +3,18 @@ import json, os, shutil, sys, re
 VERIF = os.path.dirname(os.path.dirname(os.path.abspath(__file__)))
 pid, name, needs, initially = sys.argv[1:5]
 exp = [x.split(":", 2) for x in sys.argv[5:]]
-src = "/tmp/seed/%s" % pid
+src = os.environ.get("SEED_SRC") or "/tmp/seed/%s" % pid
 dst = os.path.join(VERIF, "seeded", "%s_%s" % (pid, name))
 os.makedirs(dst, exist_ok=True)
 for f in os.listdir(src):
     if f.endswith((".diff", ".md", ".txt")):
         shutil.copy(os.path.join(src, f), dst)
-log = open("/tmp/confirm_%s.log" % pid).read()
+log = open(os.environ.get("CONFIRM_LOG") or "/tmp/confirm_%s.log" % pid).read()
 m = re.search(r"RESULT (.*)", log)
 meta = {
     "property": pid, "breaks": sorted({e[0] for e in exp}), "origin": "independent sub-agent given only the property text and a scratch worktree",
     "needs_to_manifest": needs,
-    "confirmed_by_me": {"command": "analysis/confirm_seed.sh /tmp/seed/%s  (scratch worktree /tmp/confirmwt at /repo HEAD: apply patch, full suite; apply demo, run demo; revert patch, run demo)" % pid, "result": m.group(1) if m else "?"},
+    "confirmed_by_me": {"command": "analysis/confirm_seed.sh " + src + "  (scratch worktree /tmp/confirmwt at /repo HEAD: apply patch, full suite; apply demo, run demo; revert patch, run demo)" % pid, "result": m.group(1) if m else "?"},
     "detection": initially,
     "expect": [{"property": p, "rule": r, "key": k} for p, r, k in exp],
 }
